@@ -1,6 +1,7 @@
 """C09 Harmonic transforms follow the volume convention and all backends agree.
 
-Mode P (configuration enumeration + basis enumeration).  Four case families:
+Mode P (configuration enumeration + basis enumeration).  Five case families (the fifth, `config`, drives
+nifty.config.update with every documented spelling of the convention and checks the effect behaviourally):
 
   op       FFTOperator / HartleyOperator / HarmonicTransformOperator on every regular grid of the shape
            alphabet x {default, scalar, per-axis generic} distances x {position, harmonic} domain x every
@@ -131,6 +132,11 @@ def cases(tier, seed):
                 for place in ["alone", "U-first", "U-last"] + ([] if tier == "quick" else ["RG-first"]):
                     for cls in ("SHT", "HT"):
                         add(fam="sht", cls=cls, lmax=lmax, mmax=mmax, tgt=tgt, place=place)
+    # ---- nifty.config: every documented spelling of the convention, behaviourally
+    for val, want in (("non_canonical_hartley", CONVS[0]), ("ducc_hartley", CONVS[0]), ("canonical_hartley", CONVS[1]), ("ducc_fht", CONVS[1]),
+                      ("no_such_convention", "ValueError"), (3, "TypeError")):
+        for key in ("hartley_convention", "HARTLEY_CONVENTION"):
+            add(fam="config", key=key, value=val, want=want)
     import json
     seen, uniq = set(), []
     for c in cs:
@@ -139,7 +145,7 @@ def cases(tier, seed):
             seen.add(k)
             uniq.append(c)
     cs = uniq
-    order = {"op": 0, "backend": 0, "smooth": 1, "sht": 2}
+    order = {"op": 0, "backend": 0, "smooth": 1, "sht": 2, "config": 3}
     cs.sort(key=lambda c: order[c["fam"]])         # stable: simplest (smallest grids) first inside a family
     return cs
 
@@ -530,10 +536,38 @@ def _run_sht(c):
               stats=dict(applications=4 * (Rt.shape[1] // 2 + Ra.shape[1] // 2)), detail=dict(lm=nl, npix=S.shape[0]))
 
 
+# ===================================================================================== family: config
+def _run_config(c):
+    import nifty.cl as ift
+    import nifty.config as C
+    from vf.ref import c09_ref as R
+    old = C._config["hartley_convention"]
+    try:
+        try:
+            C.update(c["key"], c["value"])
+        except (ValueError, TypeError) as e:
+            if type(e).__name__ == c["want"] and C._config["hartley_convention"] == old:
+                return ok(nontrivial=True, outcome="config|rejected|%s" % c["want"])
+            raise Fail("update(%r, %r) raised %s, documented outcome %s" % (c["key"], c["value"], type(e).__name__, c["want"]), "config|wrong-rejection")
+        if c["want"] in ("ValueError", "TypeError"):
+            raise Fail("update(%r, %r) was accepted, documented %s" % (c["key"], c["value"], c["want"]), "config|invalid-value-accepted")
+        # behavioural: the operator now follows the documented convention (3 pixels: the sine terms tell them apart)
+        dom = ift.DomainTuple.make(ift.RGSpace((3,), distances=1.))
+        op = ift.HartleyOperator(dom)
+        Rm = _rmatrix(ift, op, 1, dom, op.target, lambda dt: np.dtype(dt), "config|Hartley")
+        H = R.hartley_matrix((3,), (0,), c["want"])
+        _cmp(Rm, R.realify(H), TOL, "after update(%r, %r) the Hartley transform does not follow %s" % (c["key"], c["value"], c["want"]),
+             "config|convention-not-applied|%s" % c["want"])
+        other = R.hartley_matrix((3,), (0,), CONVS[1 - CONVS.index(c["want"])])
+        return ok(nontrivial=bool(np.abs(H - other).max() > 0.5), outcome="config|%s|%s" % (c["value"], c["want"].split("_")[0]))
+    finally:
+        C._config["hartley_convention"] = old
+
+
 # ===================================================================================== dispatch
 def run(case):
     try:
-        return {"op": _run_op, "backend": _run_backend, "smooth": _run_smooth, "sht": _run_sht}[case["fam"]](case)
+        return {"op": _run_op, "backend": _run_backend, "smooth": _run_smooth, "sht": _run_sht, "config": _run_config}[case["fam"]](case)
     except Fail as f:
         return bad(f.what, finding_key=f.key, detail=f.detail)
 
